@@ -96,6 +96,7 @@ inductive Expr
   | range (bounds : List Expr)               -- `[f1 .. t1, f2 .. t2]`: bounds = f1, t1, f2, t2 (source order)
   | slice (a : Expr) (bounds : List Expr)    -- `a[f1 .. t1, …]` on an array, a slice, a range or a string
   | pipe (l : Expr) (f : Expr) (args : List Expr)   -- `l |> f(args)` = `f(l, args)`; a tuple `l` is unpacked
+  | dimVar (x : Name)                        -- a use of an extent / bound name of a parameter (`D` of `a[D]`, `f` of `r[f .. t]`)
 inductive Item
   | bind (isVar : Bool) (x : Name) (e : Expr)
   | funcs (fs : List Func)                   -- a maximal run of consecutive function items
@@ -170,7 +171,7 @@ mutual
 (the binders between the use and the function whose list is being built) -/
 def fvE (bound : List Name) (acc : List Name) : Expr → List Name
   | .lit _ | .enumVal _ _ => acc
-  | .var x => if x ∈ bound then acc else addFv acc x
+  | .var x | .dimVar x => if x ∈ bound then acc else addFv acc x
   | .un _ a => fvE bound acc a
   | .bin _ a b | .and a b | .or a b | .assign a b | .while a b | .doWhile a b => fvE bound (fvE bound acc a) b
   | .cond c t e => fvE bound (fvE bound (fvE bound acc c) t) e
@@ -238,6 +239,7 @@ inductive Val
   | slc (r : Option Loc)                    -- reference to a `slcObj`
   | rngObj (bounds : Array Loc)             -- the CELLS from1, to1, from2, to2, … (those the bound expressions evaluated to: shared)
   | slcObj (arr : Loc) (rng : Loc)          -- a slice: the array OBJECT and the range OBJECT
+  | dimRef (param : Loc) (k : Nat)          -- what an extent / bound name is bound to: the parameter's cell, the name's position
   deriving Inhabited
 
 abbrev Env := List (Name × Loc)
@@ -535,6 +537,108 @@ def liftOp : OpRes → M Val
   | .crash m => stopM (.crash m)
   | .stuck m => stuck m
 
+/-! ### element-wise array arithmetic (`OP_{NEG,ADD,SUB,MUL}_ARR_*`, `OP_MUL_ARR_ARR_*`; shape guards `object_arr_can_add`,
+`object_arr_can_mult` = `Idx.canAdd`, `Idx.canMult` of C12): `-a`, `a + b`, `a - b`, `k * a` (scalar on the LEFT), `a * b`
+(matrix product).  The result is a fresh array of fresh cells; a nil operand raises `nil_pointer`, shapes that do not
+conform raise `wrong_array_size`. -/
+
+def loadVals : List Loc → M (List Val)
+  | [] => pure []
+  | l :: ls => do
+    let v ← load l
+    let r ← loadVals ls
+    pure (v :: r)
+
+/-- fresh cells for a list of element results (the first failing one decides) -/
+def allocRes : List OpRes → M (List Loc)
+  | [] => pure []
+  | r :: rs => do
+    let v ← liftOp r
+    let c ← alloc v
+    let rest ← allocRes rs
+    pure (c :: rest)
+
+def arrObjOf (o : Loc) : M (List Nat × Array Loc) := do
+  match (← load o) with
+  | .arrObj dims elems => pure (dims, elems)
+  | _ => stuck "array reference to a non-array"
+
+/-- the (extent, mult) vector the shape guards of C12 look at (they read the extents only) -/
+def extDv (dims : List Nat) : List (Nat × Nat) := dims.map fun n => (n, 1)
+
+def newArr (dims : List Nat) (cells : List Loc) : M Val := do
+  let o ← alloc (.arrObj dims cells.toArray)
+  pure (.arr (some o))
+
+def arrMap (f : Val → OpRes) (a : Option Loc) : M Val :=
+  match a with
+  | none => throwE .nil_pointer
+  | some o => do
+    let de ← arrObjOf o
+    let vs ← loadVals de.2.toList
+    let cells ← allocRes (vs.map f)
+    newArr de.1 cells
+
+/-- `a + b`, `a - b`: same number of dimensions and the same extents, else `wrong_array_size`; element by element -/
+def arrZip (op : BinOp) (a b : Option Loc) : M Val :=
+  match a, b with
+  | some o1, some o2 => do
+    let de1 ← arrObjOf o1
+    let de2 ← arrObjOf o2
+    if Idx.canAdd (extDv de1.1) (extDv de2.1) then do
+      let v1 ← loadVals de1.2.toList
+      let v2 ← loadVals de2.2.toList
+      let cells ← allocRes (List.zipWith (binop op) v1 v2)
+      newArr de2.1 cells
+    else throwE .wrong_array_size
+  | _, _ => throwE .nil_pointer
+
+def zeroLike : Val → Val
+  | .long _ => .long 0
+  | .float _ => .float (Float32.ofBits 0)
+  | .double _ => .double (Float.ofBits 0)
+  | _ => .int 0
+
+/-- `sum = 0; sum += x_k * y_k` in the element type -/
+def dotRes : Val → List Val → List Val → OpRes
+  | acc, x :: xs, y :: ys =>
+    match binop .mul x y with
+    | .val p =>
+      match binop .add acc p with
+      | .val s => dotRes s xs ys
+      | r => r
+    | r => r
+  | acc, _, _ => .val acc
+
+/-- the entries of the matrix product, row-major: rows of the `r1 × c1` matrix `v1` with columns of the `c1 × c2` matrix `v2` -/
+def matEntries (r1 c1 c2 : Nat) (v1 v2 : List Val) : List OpRes :=
+  let zero := zeroLike (v1.headD (.int 0))
+  (List.range r1).flatMap fun i => (List.range c2).map fun j =>
+    dotRes zero ((v1.drop (i * c1)).take c1) ((List.range c1).map fun k => (v2[k * c2 + j]?).getD zero)
+
+/-- `a * b` on two arrays: both 2-dimensional with columns(a) = rows(b), else `wrong_array_size` -/
+def matMul (a b : Option Loc) : M Val :=
+  match a, b with
+  | some o1, some o2 => do
+    let de1 ← arrObjOf o1
+    let de2 ← arrObjOf o2
+    if Idx.canMult (extDv de1.1) (extDv de2.1) then
+      match de1.1, de2.1 with
+      | [r1, c1], [_, c2] => do
+        let v1 ← loadVals de1.2.toList
+        let v2 ← loadVals de2.2.toList
+        let cells ← allocRes (matEntries r1 c1 c2 v1 v2)
+        newArr [r1, c2] cells
+      | _, _ => stuck "matrix product of arrays that are not 2-dimensional"
+    else throwE .wrong_array_size
+  | _, _ => throwE .nil_pointer
+
+/-- unary operation on a loaded operand: `-a` on an array negates element by element -/
+def unopM (op : UnOp) (va : Val) : M Val :=
+  match op, va with
+  | .neg, .arr a => arrMap (unop .neg) a
+  | _, _ => liftOp (unop op va)
+
 /-- binary operation on two loaded operands; two non-nil enum-record values compare by item -/
 def binopM (op : BinOp) (va vb : Val) : M Val :=
   match op, va, vb with
@@ -546,6 +650,13 @@ def binopM (op : BinOp) (va vb : Val) : M Val :=
     match (← load oa), (← load ob) with
     | .recObj ta _, .recObj tb _ => pure (bool2v (ta != tb))
     | _, _ => stuck "record comparison"
+  | .add, .arr a, .arr b => arrZip .add a b
+  | .sub, .arr a, .arr b => arrZip .sub a b
+  | .mul, .arr a, .arr b => matMul a b
+  | .mul, .int k, .arr b => arrMap (binop .mul (.int k)) b
+  | .mul, .long k, .arr b => arrMap (binop .mul (.long k)) b
+  | .mul, .float k, .arr b => arrMap (binop .mul (.float k)) b
+  | .mul, .double k, .arr b => arrMap (binop .mul (.double k)) b
   | _, _, _ => liftOp (binop op va vb)
 
 def truthy (v : Val) : M Bool :=
@@ -784,11 +895,6 @@ def slcLoopInit (so : Loc) : M (Option Loc × Int × Bool × Loc) := do
     pure (some ao, r)
   | _ => stuck "slice reference to a non-slice"
 
-/-- values bound to the names of a slice parameter `s[f1 .. t1, …]`: `f_k` = 0, `t_k` = |to − from| (`ID_DIM_SLICE`) -/
-def sliceDimVals : List (Int × Int) → List Int
-  | [] => []
-  | (a, b) :: rest => 0 :: (if b > a then b - a else a - b) :: sliceDimVals rest
-
 /-- the leading arguments a piped value contributes: a tuple is unpacked into its component CELLS (`RECORD_UNPACK`),
 anything else is one argument -/
 def pipeArgs (l : Loc) : M (List Loc) := do
@@ -898,61 +1004,54 @@ def assignVal (vl vr : Val) : M Val :=
       pure ((convTo t vr).getD vr)
     | none => stuck "assignment of incompatible values"
 
-def bindDims : List Name → List Nat → Env → M Env
-  | [], _, e => pure e
-  | d :: ds, [], e => do
-    let c ← alloc (.int 0)
-    bindDims ds [] ((d, c) :: e)
-  | d :: ds, n :: ns, e => do
-    let c ← alloc (.int (Int32.ofNat n))
-    bindDims ds ns ((d, c) :: e)
-
-/-- extents of the array referenced by cell `l` (nil array: no extents) -/
-def arrDims (l : Loc) : M (List Nat) := do
-  match (← load l) with
-  | .arr (some o) =>
-    match (← load o) with
-    | .arrObj dims _ => pure dims
-    | _ => stuck "array parameter is not an array"
-  | .arr none => pure []
-  | _ => stuck "array parameter is not an array"
-
 /-- bind names to cells in order (innermost = last); missing cells are cell 0 -/
 def bindNames : List Name → List Loc → Env → Env
   | [], _, env => env
   | x :: xs, [], env => bindNames xs [] ((x, 0) :: env)
   | x :: xs, l :: ls, env => bindNames xs ls ((x, l) :: env)
 
-/-- the bound cells of range object `o` -/
-def rngCells (o : Loc) : M (List Loc) := do
-  match (← load o) with
-  | .rngObj bs => pure bs.toList
-  | _ => stuck "range reference to a non-range"
+/-- the value of the `k`-th extent / bound name of the parameter in cell `p`, computed WHERE THE NAME IS USED, from what
+the parameter holds then (`ID_DIM_LOCAL`, `VECREF_VEC_DEREF`, `ID_DIM_SLICE`): array — a fresh int holding the extent;
+range — the range's OWN bound cell (an alias); slice — a fresh int, 0 for a `from` name and |to − from| for a `to` name;
+a nil array / range / slice raises `nil_pointer` (here, not at the call) -/
+def dimValue (p : Loc) (k : Nat) : M Loc := do
+  match (← load p) with
+  | .arr none | .rng none | .slc none => throwE .nil_pointer
+  | .arr (some o) =>
+    match (← load o) with
+    | .arrObj dims _ =>
+      match dims[k]? with
+      | some n => alloc (.int (Int32.ofNat n))
+      | none => stuck "extent name beyond the array's dimensions"
+    | _ => stuck "array reference to a non-array"
+  | .rng (some o) =>
+    match (← load o) with
+    | .rngObj bs =>
+      match bs[k]? with
+      | some c => pure c
+      | none => stuck "bound name beyond the range's dimensions"
+    | _ => stuck "range reference to a non-range"
+  | .slc (some so) =>
+    match (← load so) with
+    | .slcObj _ ro =>
+      if k % 2 = 0 then alloc (.int 0) else do
+        let r ← rngBounds ro
+        match r[k / 2]? with
+        | some ab => alloc (.int (Int32.ofInt (if ab.2 > ab.1 then ab.2 - ab.1 else ab.1 - ab.2)))
+        | none => stuck "bound name beyond the slice's dimensions"
+    | _ => stuck "slice reference to a non-slice"
+  | _ => stuck "extent name of something that is not an array, range or slice"
 
-/-- fresh int cells for the bound names of a slice parameter -/
-def slcDimCells (so : Loc) : M (List Loc) := do
-  match (← load so) with
-  | .slcObj _ ro => do
-    let r ← rngBounds ro
-    allocInts (sliceDimVals r)
-  | _ => stuck "slice reference to a non-slice"
+/-- the names a parameter declares besides its own (`a[D1, D2]`, `r[f .. t] : range`, `s[f .. t] : T`): each is bound to a
+fresh cell holding a REFERENCE `(parameter cell, position of the name)`; nothing is looked at here (a nil argument is
+fine until a name is used), the value is `dimValue` at every use (`Expr.dimVar`) -/
+def bindDimRefs : List Name → Loc → Nat → Env → M Env
+  | [], _, _, env => pure env
+  | d :: ds, l, k, env => do
+    let c ← alloc (.dimRef l k)
+    bindDimRefs ds l (k + 1) ((d, c) :: env)
 
-def bindDimsCells (ds : List Name) (m : M (List Loc)) (env : Env) : M Env := do
-  let cells ← m
-  pure (bindNames ds cells env)
-
-def bindDimsArr (ds : List Name) (l : Loc) (env : Env) : M Env := do
-  let dims ← arrDims l
-  bindDims ds dims env
-
-/-- the names a parameter declares besides its own: `a[D1, D2]` — fresh int cells holding the extents;
-`r[f .. t] : range` — the range's OWN bound cells; `s[f .. t] : T` — fresh int cells 0 and |to − from| -/
-def bindDimsOf (ds : List Name) (l : Loc) (env : Env) : M Env := do
-  match (← load l) with
-  | .rng (some o) => bindDimsCells ds (rngCells o) env
-  | .slc (some so) => bindDimsCells ds (slcDimCells so) env
-  | .rng none | .slc none => stopM (.crash "bound names of a nil range or slice parameter")
-  | _ => bindDimsArr ds l env
+def bindDimsOf (ds : List Name) (l : Loc) (env : Env) : M Env := bindDimRefs ds l 0 env
 
 /-- bind the parameters (converted to their declared scalar types) and, for array / range / slice
 parameters, the extent / bound names — innermost = last parameter -/
@@ -1005,10 +1104,17 @@ def evalE : Nat → Ctx → Env → Expr → M Loc
       match lookup x env with
       | some l => pure l
       | none => stuck "unbound identifier"
+    | .dimVar x =>
+      match lookup x env with
+      | some l => do
+        match (← load l) with
+        | .dimRef p k => dimValue p k
+        | _ => pure l
+      | none => stuck "unbound identifier"
     | .un op a => do
       let la ← evalE f ctx env a
       let va ← load la
-      let r ← liftOp (unop op va)
+      let r ← unopM op va
       alloc r
     | .bin op a b => do
       let la ← evalE f ctx env a
@@ -1257,7 +1363,7 @@ def evalForIn : Nat → Ctx → Env → Name → Loc → Nat → Expr → M Loc
           | none => stuck "array object shorter than its extents"
         else alloc (.int 0)
       | _ => stuck "array reference to a non-array"
-    | .arr none => stopM (.crash "for-in over a nil array")
+    | .arr none => throwE .nil_pointer
     | .rng none | .slc none => throwE .nil_pointer
     | .rng (some ro) => do
       let r ← rngLoopInit ro
@@ -1367,7 +1473,7 @@ def evalGen : Nat → Ctx → Env → Name → Loc → Nat → List Qual → Exp
           | none => stuck "array object shorter than its extents"
         else pure ()
       | _ => stuck "array reference to a non-array"
-    | .arr none => stopM (.crash "generator over a nil array")
+    | .arr none => throwE .nil_pointer
     | .rng none | .slc none => throwE .nil_pointer
     | .rng (some ro) => do
       let r ← rngLoopInit ro
@@ -1395,7 +1501,7 @@ end
 mutual
 /-- every function of the program with the static name stack at its definition -/
 def collectE (bs : List Name) : Expr → List FunEntry
-  | .lit _ | .var _ | .enumVal _ _ => []
+  | .lit _ | .var _ | .enumVal _ _ | .dimVar _ => []
   | .un _ a => collectE bs a
   | .bin _ a b | .and a b | .or a b | .assign a b | .while a b | .doWhile a b => collectE bs a ++ collectE bs b
   | .cond c t e => collectE bs c ++ collectE bs t ++ collectE bs e
